@@ -259,6 +259,54 @@ def shard_op2d_big(arg):
     return res
 
 
+def check_sources_1d(mkind, flux, rname, mspec, kinds, idx, res=None):
+    """with declared source terms the volume integral of equation i changes by the boundary fluxes (none: periodic) and by the integral of ITS
+    declared source: sum(vol R_i) = sum(vol s_i(x, Q))"""
+    mesh = space.mesh_spec(mspec)
+    srcs = [None if k is None else (lambda x, q, k=k, i=i: (0.3 + 0.1 * i) + 0.0 * np.asarray(x) if k == "c" else 0.2 * (i + 1) * np.asarray(x) ** 2 if k == "x" else 0.1 * q[0] + 0.02 * (i + 1) * q[-1])
+            for i, k in enumerate(kinds)]
+    if mkind == "euler1d":
+        model, kind = space.euler.euler1d(source=list(srcs)), "euler1d"
+    elif mkind == "nozzle-const":
+        model, kind = space.euler.nozzle(space.SECTION_LAWS["const"], source=list(srcs)), "euler1d"
+    else:
+        model, kind = space.shallow.shallowwater1d(source=list(srcs)), "shallowwater"
+    disc = space.modeldisc.fvm(model, mesh, space.recon(rname), numflux=flux)
+    f = space.field_from_letters(model, mesh, space.cons_alphabet(kind, "mild"), idx)
+    with np.errstate(all="ignore"):
+        R = [np.asarray(r, float).copy() for r in disc.rhs(f)]
+    vol = np.asarray(mesh.vol(), float)
+    x = np.asarray(mesh.centers(), float)
+    q = [np.asarray(d, float) for d in f.data]
+    out = []
+    for i in range(model.neq):
+        want = float(np.sum(vol * (srcs[i](x, q) + np.zeros(mesh.ncell)))) if srcs[i] else 0.0
+        got = float(np.sum(vol * R[i]))
+        sc = float(np.sum(vol * np.abs(R[i]))) + abs(want) + 1e-300
+        if res is not None:
+            res.evals += 1
+            res.worst("op1d/declared-sources", abs(got - want) / sc / EPS)
+        if not abs(got - want) <= 64 * EPS * sc:
+            out.append(("C01/op1d-sources/%s/eq%d" % (mkind, i), "%s %s %s mesh %r sources %r data %r: sum(vol*R[%d]) = %r, integral of the source declared for that equation = %r (periodic)" % (
+                mkind, flux, rname, mspec, kinds, idx, i, got, want)))
+    return out
+
+
+def shard_sources(arg):
+    mkind, flux, rname = arg
+    res = core.Res()
+    neq = 2 if mkind == "shallowwater" else 3
+    for kinds in itertools.product((None, "c", "x", "q"), repeat=neq):
+        if sum(k is not None for k in kinds) < 1:
+            continue
+        for mspec in (("uni", 3, 2.0, -1.0), ("w", (2.0, 0.5, 1.0))):
+            for idx in ((0, 1, 2), (2, 0, 0), (1, 2, 1)):
+                res.nontrivial += 1
+                for s_, w in check_sources_1d(mkind, flux, rname, mspec, kinds, idx, res):
+                    res.violation(s_, w, {"kind": "src1d", "model": mkind, "flux": flux, "recon": rname, "mesh": mspec, "kinds": list(kinds), "idx": list(idx)})
+    return res
+
+
 def shard_huge(arg):
     """meshes whose cell/face counts straddle the 2^15 and 2^16 limits of narrow index types: three fixed patterns each (the operator is evaluated
     once per pattern; conservation is judged as on the small meshes)"""
@@ -563,6 +611,8 @@ def run(ctx):
     huge += [("1d", mn, fl, r, n, bcs) for mn, fl in (("euler1d", "hllc"), ("convection+", None)) for r in ("extrapol1", "muscl:vanleer")
              for n in (32769, 65537) for bcs in (("per", "per"),)]
     ctx.pmap("operator-index-width-limits", shard_huge, huge)
+    ctx.pmap("operator-1d-declared-sources", shard_sources, [(mk, fl, r) for mk, fl in (("euler1d", "hllc"), ("nozzle-const", "hllc"), ("nozzle-const", "hlle"), ("shallowwater", "hll"))
+                                                             for r in ("extrapol1", "muscl:vanleer")])
     cfg3 = []
     for iname in space.integrators():
         for mname, flux, rname in (("convection-", None, "extrapol3"), ("burgers", None, "muscl:vanleer"), ("euler1d", "hllc", "muscl:minmod"),
@@ -590,6 +640,8 @@ def replay(case):
     if k == "op2d":
         v = check_op_2d(case["flux"], case["recon"], tuple(case["grid"]), case["bc"], tuple(case["idx"]))
         return [(s_.replace("C01/op2d/", "C01/op2d/larger-grid/") if case["grid"][0] * case["grid"][1] > 9 else s_, w) for s_, w in v]
+    if k == "src1d":
+        return check_sources_1d(case["model"], case["flux"], case["recon"], _tup(case["mesh"]), tuple(case["kinds"]), tuple(case["idx"]))
     if k == "huge":
         a = case["arg"]
         if a[0] == "1d":
